@@ -29,8 +29,14 @@ from fractions import Fraction
 from vlib import core
 
 PROP = "C17"
-SCALARS = ["n", "m", "i", "j", "k", "lambda"]
-ARRAYS = {"a": 1, "b": 2, "idx": 1}
+BASE = ["n", "m", "i", "j", "k", "lambda"]
+# names that sympy's parser / Python would resolve by themselves if SymPyWriter's type map (or its renaming of
+# reserved words) missed them: sympy globals (constants, singletons, functions) and Python keywords, plus names
+# that collide with the renamed ones
+SPECIAL = ["pi", "oo", "nan", "zoo", "E", "S", "Q", "O", "beta", "gamma", "zeta", "sqrt", "sign", "lambda_1",
+           "in", "is", "not", "if", "for", "def", "pass", "sympy_lower"]
+SCALARS = BASE + SPECIAL
+ARRAYS = {"a": 1, "b": 2, "idx": 1, "re": 1, "binomial": 2, "while": 1}
 REASON_KEY = {"div": "sympywriter/int-division-as-rational", "mod": "sympywriter/mod-sign",
               "pow-assoc": "sympywriter/pow-left-assoc", "pow-exp": "sympywriter/pow-negative-exponent"}
 FEATURE_CODE = {"div": 0, "mod": 1, "pow-exp": 2, "pow-assoc": 3, "neg-lit": 4}
@@ -483,6 +489,13 @@ class Impl:
         names = {}
         for key, val in w.type_map.items():
             names[key] = str(val) if isinstance(val, self.sympy.Symbol) else val.__name__
+        # an array whose name is reserved (or clashes) becomes a sympy function with the writer's UNIQUE name
+        # (`while` -> while_1): still one distinct uninterpreted function per array.  Map it back to the array
+        # through the writer's tag table (tag = Fortran name); two arrays can never share an entry.
+        tags = w._symbol_table.tags_dict                    # pylint: disable=protected-access
+        for tag, sym in tags.items():
+            if sym.name in names and not isinstance(w.type_map[sym.name], self.sympy.Symbol) and tag in ARRAYS:
+                names[sym.name] = tag
         return strs, names
 
     def sympy_exprs(self, exprs):
@@ -582,7 +595,9 @@ def parse_py(text, names):
         if isinstance(t, ast.Constant) and isinstance(t.value, int):
             return ("int", t.value)
         if isinstance(t, ast.Name):
-            return ("var", names.get(t.id, t.id))
+            # a name the type map does not bind is resolved by sympy's own namespace (pi, oo, E, ...): never the
+            # free symbol the model requires -> reported as a mismatch
+            return ("var", names[t.id] if t.id in names else "!unbound:" + t.id)
         if isinstance(t, ast.UnaryOp) and isinstance(t.op, ast.USub):
             return ("neg", go(t.operand))
         if isinstance(t, ast.UnaryOp) and isinstance(t.op, ast.UAdd):
@@ -597,7 +612,7 @@ def parse_py(text, names):
             args = tuple(go(a) for a in t.args)
             if f in ("Min", "Max", "Mod"):
                 return ("call", f, args)
-            return ("call", ("fun", names.get(f, f)), args)
+            return ("call", ("fun", names[f] if f in names else "!unbound:" + f), args)
         raise OutOfSubset("python syntax " + type(t).__name__)
     return go(tree)
 
@@ -634,7 +649,8 @@ class Gen:
         r = self.r
         if r.random() < 0.4:
             return lit(r.choice([0, 1, 2, 2, 3, 3, 4, 5, 7]))
-        return var(r.choice(SCALARS[:5] if r.random() < 0.95 else SCALARS))
+        c = r.random()
+        return var(r.choice(BASE[:5]) if c < 0.84 else r.choice(BASE) if c < 0.88 else r.choice(SPECIAL))
 
     def expr(self, depth, profile):
         """profile: 'poly' (+ - * ** literal), 'frag' (+ MIN/MAX, arrays, unary minus), 'full' (+ / MOD, any **)."""
@@ -658,7 +674,7 @@ class Gen:
                 base = bop("**", self.expr(depth - 2, profile), lit(r.choice([2, 3])))
             return bop("**", base, lit(r.choice([0, 1, 2, 2, 2, 3])))
         if k == "pow":
-            ex = r.choice([neg(lit(1)), neg(lit(2)), var(r.choice(SCALARS[:3])), neg(var("n")),
+            ex = r.choice([neg(lit(1)), neg(lit(2)), var(r.choice(BASE[:3])), neg(var("n")),
                            bop("-", var("n"), lit(1)), bop("**", lit(2), lit(r.choice([2, 3])))])
             return bop("**", self.expr(depth - 2, profile) if r.random() < 0.5 else lit(r.choice([2, 3])), ex)
         if k == "neg":
@@ -713,7 +729,7 @@ class Gen:
         if pick < 0.44:
             return bop("+", bop("/", e, lit(2)), bop("/", e, lit(2)))
         if pick < 0.60:
-            z = var(r.choice(SCALARS[:3]))
+            z = var(r.choice(BASE[:3]))
             return bop("-", bop("+", e, z), z)
         if pick < 0.72:
             return bop("*", e, lit(1))
@@ -730,7 +746,7 @@ class Gen:
         if t == "lit":
             return lit(e[1] + r.choice([1, 2]))
         if t == "var":
-            return var(r.choice([x for x in SCALARS[:5] if x != e[1]]))
+            return var(r.choice([x for x in BASE[:5] if x != e[1]]))
         if t == "neg":
             return e[1] if r.random() < 0.3 else neg(self.near(e[1]))
         if t == "bin":
@@ -759,9 +775,33 @@ class Gen:
         args[i] = self.near(args[i])
         return ("call", f, tuple(args))
 
+    def callfirst(self):
+        """A special name occurring ONLY as the first operand of an operation nested in a call (possibly a nested
+        call / array index), compared with what sympy's own binding of that name would make of it."""
+        r = self.r
+        x = var(r.choice(SPECIAL))
+        c, d = r.choice([1, 2, 3, 4]), r.choice([0, 1, 2])
+        inner = bop(r.choice("+-"), x, lit(c))
+        other = r.choice([lit(d), bop("+", var("i"), lit(d)), var("n")])
+        f = r.choice(["MIN", "MAX", "MAX"])
+        a = call(f, [inner, other] if r.random() < 0.7 else [other, inner])
+        shape = r.random()
+        if shape < 0.15:
+            a = call(r.choice(["MIN", "MAX"]), [a, var("m")])
+        elif shape < 0.3:
+            a = arr("a", [a])
+        elif shape < 0.4:
+            a = bop("+", a, var("j"))
+        elif shape < 0.5:
+            a = call("MOD", [inner, lit(r.choice([2, 3]))])
+        b = r.choice([other, bop("+", other, lit(1)), lit(d), lit(d + 1), lit(c), self.same(a), self.near(a)])
+        return "callfirst", a, b
+
     def pair(self):
         """(kind, a, b)"""
         r = self.r
+        if r.random() < 0.12:
+            return self.callfirst()
         profile = r.choice(["poly", "frag", "frag", "full", "full"])
         a = self.expr(r.choice([2, 3, 3, 4] if self.thorough else [2, 2, 3, 3]), profile)
         c = r.random()
@@ -803,7 +843,25 @@ TARGETED = [
     (bop("**", neg(var("n")), lit(2)), bop("**", var("n"), lit(2))),
     (neg(bop("**", var("n"), lit(2))), bop("**", var("n"), lit(2))),
 ]
+for _x in ("pi", "oo", "E", "lambda", "in", "gamma"):
+    TARGETED += [
+        (call("MAX", [bop("-", var(_x), lit(3)), lit(1)]), lit(1)),
+        (call("MAX", [bop("-", var(_x), lit(3)), lit(1)]), lit(2)),
+        (call("MIN", [bop("+", var(_x), var("i")), bop("+", lit(4), var("i"))]), bop("+", var("i"), lit(3))),
+        (call("MIN", [bop("-", var(_x), lit(4)), lit(0)]), lit(0)),
+        (arr("a", [call("MAX", [bop("+", var(_x), lit(1)), lit(2)])]), arr("a", [lit(2)])),
+        (bop("+", var(_x), lit(1)), bop("+", lit(1), var(_x))),
+    ]
+TARGETED += [
+    (arr("re", [bop("+", var("i"), lit(1))]), arr("re", [bop("+", lit(1), var("i"))])),
+    (arr("binomial", [var("i"), var("j")]), arr("binomial", [var("j"), var("i")])),
+    (arr("while", [var("pi")]), arr("while", [bop("+", var("pi"), lit(0))])),
+    (bop("+", var("lambda"), var("lambda_1")), bop("*", lit(2), var("lambda"))),
+    (bop("-", var("sympy_lower"), var("n")), neg(bop("-", var("n"), var("sympy_lower")))),
+]
 TARGETED_SOLVE = [
+    (call("MAX", [bop("-", var("pi"), lit(3)), var("i")]), lit(1), "i"),
+    (bop("+", var("i"), call("MIN", [bop("-", var("E"), lit(4)), lit(0)])), var("n"), "i"),
     (bop("*", bop("/", var("i"), lit(2)), lit(2)), lit(3), "i"),
     (bop("*", call("MOD", [neg(lit(7)), lit(2)]), var("i")), lit(3), "i"),
     (bop("*", var("i"), var("i")), lit(4), "i"),
@@ -813,6 +871,9 @@ TARGETED_SOLVE = [
     (bop("**", bop("**", var("i"), lit(2)), lit(1)), lit(9), "i"),
 ]
 TARGETED_EXPAND = [
+    bop("*", bop("+", var("i"), lit(1)), call("MAX", [bop("-", var("pi"), lit(3)), lit(1)])),
+    bop("*", bop("+", var("i"), lit(1)), call("MIN", [bop("-", var("oo"), lit(3)), lit(1)])),
+    bop("*", bop("+", var("pi"), lit(1)), bop("-", var("in"), lit(2))),
     bop("*", bop("/", bop("+", var("n"), lit(1)), lit(2)), lit(2)),
     bop("*", call("MOD", [neg(lit(7)), lit(2)]), bop("+", var("n"), lit(1))),
     bop("*", bop("**", bop("**", var("n"), lit(2)), lit(3)), bop("+", var("n"), lit(1))),
@@ -826,7 +887,7 @@ TARGETED_EXPAND = [
 
 def grid(vars_, rng, limit):
     """Deterministic grid of integer valuations (negatives, zero, small positives) + random ones."""
-    vals = [-3, -2, -1, 0, 1, 2, 3, 4]
+    vals = [-3, -2, -1, 0, 1, 2, 3, 4, 5, 7]
     envs = []
     if len(vars_) <= 2:
         for combo in itertools.product(vals, repeat=len(vars_)):
@@ -837,7 +898,7 @@ def grid(vars_, rng, limit):
         for _ in range(limit):
             envs.append({x: rng.choice(vals + [-7, 5, 9]) for x in vars_})
     out = []
-    for k, env in enumerate(envs[:limit + 70]):
+    for k, env in enumerate(envs[:limit + 110]):
         out.append((env, k % 3))
     return out
 
@@ -1310,7 +1371,9 @@ def gfortran_validation(ctx, gen, rng, n_cases):
         e = special[tries - 1] if tries <= len(special) else gen.expr(rng.choice([2, 3]), "full")
         if any(x[0] == "call" and isinstance(x[1], tuple) for x in subexprs(e)):
             continue
-        env = {x: rng.choice([-7, -3, -2, -1, 0, 1, 2, 3, 5, 8]) for x in SCALARS}
+        if set(variables(e)) - set(BASE):
+            continue
+        env = {x: rng.choice([-7, -3, -2, -1, 0, 1, 2, 3, 5, 8]) for x in BASE}
         try:
             vals = [feval(x, (env, 0)) for x in subexprs(e)]
         except OverflowError:
@@ -1318,9 +1381,9 @@ def gfortran_validation(ctx, gen, rng, n_cases):
         if any(v is None or abs(v) >= 2 ** 31 - 1 for v in vals):
             continue
         cases.append((e, env, vals[-1]))
-    lines = ["program c17sem", "  implicit none", "  integer :: " + ", ".join(SCALARS)]
+    lines = ["program c17sem", "  implicit none", "  integer :: " + ", ".join(BASE)]
     for e, env, _ in cases:
-        for x in SCALARS:
+        for x in BASE:
             lines.append("  %s = %d" % (x, env[x]))
         lines.append("  write(*,*) %s" % fortran_text(e))
     lines.append("end program c17sem")
